@@ -53,14 +53,14 @@ func Claim(prop, world string, weight int) {
 
 // ReplayFile is the on-disk form of one exactly repeatable run.
 type ReplayFile struct {
-	Property string          `json:"property"`
-	World    string          `json:"world"`
-	Tier     string          `json:"tier"`
-	Seed     uint64          `json:"seed"`
-	Run      int             `json:"run"`
-	ChoiceSeed uint64        `json:"choice_seed"`
-	Cfg      Config          `json:"cfg"`
-	Script   json.RawMessage `json:"script"`
+	Property   string          `json:"property"`
+	World      string          `json:"world"`
+	Tier       string          `json:"tier"`
+	Seed       uint64          `json:"seed"`
+	Run        int             `json:"run"`
+	ChoiceSeed uint64          `json:"choice_seed"`
+	Cfg        Config          `json:"cfg"`
+	Script     json.RawMessage `json:"script"`
 	// Choices is the schedule/fault choice vector, run-length encoded as
 	// [index,value] pairs of the non-zero entries plus the total length.
 	ChoiceLen int         `json:"choice_len"`
